@@ -394,4 +394,59 @@ example : ∃ m1 m2 : AMsg, m1.items.Perm m2.items ∧ m1.items ≠ m2.items ∧
    { items := [{ typ := 1, flags := 0x40, derr := some (3, 1) }, { typ := 6, flags := 0x40, derr := some (3, 5) }] },
    List.Perm.swap _ _ _, by decide, by decide⟩
 
+/-! ## C06_withdrawals_executed — the RIB effect of a delivered (contained) UPDATE -/
+
+/-- Whatever is delivered to the RIB (`effect` = peer.handleUpdate → table.ProcessMessage), unless it
+    is an End-of-RIB marker:
+    * accepted (install / attribute discard): its NLRI and MP_REACH prefixes are announced, and the
+      prefixes it withdraws explicitly (WITHDRAWN ROUTES field, MP_UNREACH_NLRI) are withdrawn;
+    * treat-as-withdraw: nothing is announced and EVERY prefix it names — NLRI, MP_REACH, WITHDRAWN
+      ROUTES, MP_UNREACH — is withdrawn.
+    A session reset delivers nothing (`effect = none`, second theorem). -/
+theorem C06_withdrawals_executed (c : Cfg) (m : AMsg) (e : Effect) (h : effect c m = some e) :
+    (∃ l, (sessionAction c m = .install l ∨ sessionAction c m = .discardAttrs l) ∧
+        (isEOR l (decode m).wd (decode m).nlri = true ∨
+          (e.announced = (decode m).nlri + lastNpfx l 14 ∧
+           e.withdrawn = (decode m).wd + lastNpfx l 15))) ∨
+    (∃ l, sessionAction c m = .withdrawAll l ∧
+        (isEOR l (decode m).wd (decode m).nlri = true ∨
+          (e.announced = 0 ∧
+           e.withdrawn = (decode m).nlri + lastNpfx l 14 + ((decode m).wd + lastNpfx l 15)))) := by
+  unfold effect at h
+  cases hs : sessionAction c m with
+  | install l =>
+    rw [hs] at h; simp only [Option.some.injEq] at h; subst h
+    left; refine ⟨l, Or.inl rfl, ?_⟩
+    unfold processMessage
+    by_cases he : isEOR l (decode m).wd (decode m).nlri = true
+    · exact Or.inl he
+    · right; simp [he]
+  | discardAttrs l =>
+    rw [hs] at h; simp only [Option.some.injEq] at h; subst h
+    left; refine ⟨l, Or.inr rfl, ?_⟩
+    unfold processMessage
+    by_cases he : isEOR l (decode m).wd (decode m).nlri = true
+    · exact Or.inl he
+    · right; simp [he]
+  | withdrawAll l =>
+    rw [hs] at h; simp only [Option.some.injEq] at h; subst h
+    right; refine ⟨l, rfl, ?_⟩
+    unfold processMessage
+    by_cases he : isEOR l (decode m).wd (decode m).nlri = true
+    · exact Or.inl he
+    · right; simp [he]
+  | reset a b => rw [hs] at h; simp at h
+
+theorem C06_reset_delivers_nothing (c : Cfg) (m : AMsg) :
+    effect c m = none ↔ ∃ code sub, sessionAction c m = .reset code sub := by
+  unfold effect
+  cases hs : sessionAction c m <;> simp
+
+example : effect ⟨true, true, false, false, true, true⟩
+    { wd := 2, nlri := 1,
+      items := [{ typ := 1, flags := 0x40, origin := 7 }, { typ := 2, flags := 0x40, segs := [2] },
+                { typ := 3, flags := 0x40, nh := [10, 0, 0, 1] },
+                { typ := 15, flags := 0x80, afi := 2, safi := 1, npfx := 3 }] }
+    = some ⟨0, 6⟩ := by decide
+
 end C06
